@@ -81,6 +81,14 @@ Spec == Init /\ [][Next]_vars
 Runnable(i) == w[i].st \in {"ready", "woken"} \/ (i = 2 /\ tmo2 /\ w[i].st = "waiting")
 Quiescent == MainDone /\ \A i \in Waiters : ~Runnable(i)
 
+\* every thread that can run eventually does (the hub is fair): liveness is stated under this assumption
+FairSpec == Spec /\ WF_vars(MainStep) /\ WF_vars(Resume) /\ \A i \in Waiters : WF_vars(WaiterRun(i))
+\* no waiter is left behind: once the main thread is done with the flag set, every waiter that exists ends up returned
+EventuallyReleased == \A i \in Waiters :
+   [](MainDone /\ flag /\ w[i].st # "unborn" => <>(w[i].st \in {"true", "false"}))
+\* and whatever happens the system settles
+EventuallyQuiescent == <>[]Quiescent
+
 (* ---- what a user of the Event relies on ----------------------------------------- *)
 \* a wait without timeout only ever returns True
 UntimedNeverFalse == \A i \in Waiters : (w[i].st = "false") => (i = 2 /\ tmo2)
